@@ -530,6 +530,10 @@ class SnpRule(object):
         self.param_pairs[f.name] = out
         return out
 
+    def producer_args_static(self, call):
+        fn = call.get("fn")
+        return fn in self.producers or fn in self.helpers
+
     def is_snprintf_like(self, f):
         return self.like.get(f.name, False)
 
@@ -690,6 +694,39 @@ class SnpRule(object):
                 others = set(s2 for (p2, s2) in fl.adv_pairs if p2 == pk)
                 if others and sk not in others:
                     fl.viol.setdefault(c, "producer writes at %s with size %s, but %s is advanced together with %s: the remaining size is not what bounds this write (%s)" % (pk, sk, pk, sorted(others), f.loc(node)))
+            # the full length is computed whatever the buffer size: no exit from a producing loop may depend on the remaining size
+            if self.is_snprintf_like(f):
+                sizes = self.size_keys(f, fl)
+                for x in f.walk():
+                    if x["k"] not in ("Break", "Goto", "Return"):
+                        continue
+                    if x["k"] == "Return":
+                        e = x["c"][0] if x.get("c") else None
+                        if e is not None and cval(e) is not None and cval(e) < 0:
+                            continue
+                    # climb to the nearest loop; remember the If conditions on the way
+                    conds, p, loop = [], f.par(x), None
+                    child = x
+                    while p is not None:
+                        if p["k"] == "If" and p["c"][0] is not child:
+                            conds.append(p["c"][0])
+                        if p["k"] == "Switch" and x["k"] == "Break":
+                            break
+                        if p["k"] in ("For", "While", "Do"):
+                            loop = p
+                            break
+                        child = p
+                        p = f.par(p)
+                    if loop is None or not conds:
+                        continue
+                    if not any(y["k"] == "Call" and self.producer_args_static(y) for y in subnodes(loop)):
+                        continue
+                    hit = [c0 for c0 in conds if any(lv(y) in sizes for y in subnodes(c0) if y["k"] in ("Ref", "Member", "Unary"))]
+                    cname = "loop-exit#%d" % self.ordinal(f, x)
+                    fl.sites.setdefault(cname, ("loop exit in a producing loop", f.loc(x)))
+                    if hit:
+                        fl.viol.setdefault(cname, "a producing loop is left under a condition on the remaining size (`%s`): the output that no longer fits is not counted, "
+                                                  "the returned length is then smaller than the untruncated length" % src(strip(hit[0])))
             for c, (kind, loc) in sorted(fl.sites.items()):
                 ok = c not in fl.viol
                 chk.inst(rule, f, c, ok, fl.viol.get(c, kind), loc=loc)
